@@ -186,7 +186,7 @@ def run(ctx):
     ctx.assumptions = [
         "geometry enters the specification through three facts the renderer guarantees: rings are convex and listed "
         "counter-clockwise, holes lie strictly inside their outer, outers are disjoint (regular polygons on circles, "
-        "5 magnitude profiles incl. one straddling lon=0/lat=0); numeric robustness near degeneracy is not explored",
+        "6 magnitude profiles incl. one straddling lon=0/lat=0 and two with a vertex at exactly lon=0 / lat=0); numeric robustness near degeneracy is not explored",
         "member ways are untagged, the relation carries type=multipolygon|boundary (+ name)",
         "'the result is the same' is read as: same polygons with the same rings as cyclic sequences with direction "
         "(start vertex of a ring and order of polygons / holes are representation)",
